@@ -347,6 +347,11 @@ func (p *policy) allocatePool(container cache.Container, poolHint string) (Grant
 		offer *libmem.Offer
 	)
 
+	if _, ok := container.GetPod(); !ok {
+		return nil, policyError("can't allocate resources for %s: pod %s not found",
+			container.PrettyName(), container.GetPodID())
+	}
+
 	request := newRequest(container, p.memAllocator.Masks().AvailableTypes())
 
 	if p.root.FreeSupply().ReservedCPUs().IsEmpty() && request.CPUType() == cpuReserved {
